@@ -395,13 +395,19 @@ def validate(chk, traces, label):
     batch = list(traces)
     n = len(batch)
     base = max(traces, key=len)
+    # self-test of the binding: a hook counted once too often, and a close() that changed the state left out of the log, must
+    # both be rejected (a close() of an already closed side is a no-op and may be left out: not used for the test)
     j = next((i for i, e in enumerate(base) if e["call"] == "close"), None)
     if j is not None:
         b1 = [dict(e) for e in base]
         b1[j] = dict(b1[j], hA=b1[j]["hA"] + 1)
+        batch += [b1]
+    j2 = next((i for i, e in enumerate(base) if e["call"] == "close" and i > 0 and e.get("x") in ("A", "B") and
+               e["c" + e["x"]] and not base[i - 1]["c" + e["x"]]), None)
+    if j2 is not None:
         b2 = [dict(e) for e in base]
-        del b2[j]
-        batch += [b1, b2]
+        del b2[j2]
+        batch += [b2]
     out, res = tlc.validate_traces("Trace_RpycTeardown", batch, "", ["MaxReq = 100000"], invariants=INVS, name="c11")
     chk.add_tlc(res, "trace validation batch (RpycTeardown, %s)" % label)
     if res.violation:
